@@ -3,6 +3,7 @@ package checkers
 import (
 	"go/ast"
 	"go/types"
+	"sort"
 
 	"github.com/go-critic/go-critic/checkers/internal/astwalk"
 	"github.com/go-critic/go-critic/linter"
@@ -31,10 +32,17 @@ type importShadowChecker struct {
 }
 
 func (c *importShadowChecker) VisitLocalDef(def astwalk.Name, _ ast.Expr) {
+	// PkgObjects is a map, and in a file that does not type-check
+	// several imports can share one name: report in import order.
+	var shadowed []*types.PkgName
 	for pkgObj, name := range c.ctx.PkgObjects {
 		if name == def.ID.Name && name != "_" {
-			c.warn(def.ID, name, pkgObj.Imported())
+			shadowed = append(shadowed, pkgObj)
 		}
+	}
+	sort.Slice(shadowed, func(i, j int) bool { return shadowed[i].Pos() < shadowed[j].Pos() })
+	for _, pkgObj := range shadowed {
+		c.warn(def.ID, def.ID.Name, pkgObj.Imported())
 	}
 }
 
